@@ -35,6 +35,8 @@ pub fn ops_structural() -> Vec<Op> {
     for (n, x) in [("leaf", Envelope::new("x")), ("known", Envelope::new(known_values::NOTE)), ("wrapped", Envelope::new_assertion("p", "o").wrap_envelope())] {
         v.push(op(format!("add-nonassertion({n})"), move |e| e.add_assertion_envelope(x.clone()).ok()));
     }
+    v.push(op("add-nonassertion-salted(leaf,unsalted)", |e| e.add_assertion_envelope_salted(Envelope::new("x"), false).ok()));
+    v.push(op("add-salted(a2,unsalted)", |e| e.add_assertion_envelope_salted(Envelope::new_assertion(known_values::IS_A, "o2"), false).ok()));
     for (n, a) in &p.items[..5] { let a = a.clone(); v.push(op(format!("remove({n})"), move |e| Some(e.remove_assertion(a.clone())))); }
     let g = |i: usize| p.items[i].1.clone();
     for (x, y, nm) in [(g(0), g(2), "replace(a1,a3)"), (g(2), g(1), "replace(a3,a2)"), (g(0), g(0), "replace(a1,a1)"), (g(1), g(3), "replace(a2,a1e)")] {
